@@ -96,7 +96,10 @@ const (
 func (f *fsm) cleanup() {
 	if f.cancelDialFn != nil {
 		f.cancelDialFn()
-		<-f.dialResultCh
+		if dr := <-f.dialResultCh; dr != nil && dr.conn != nil {
+			// the dial completed but its result was never consumed
+			dr.conn.Close()
+		}
 	}
 	f.cleanupConnAndReader()
 	for _, t := range []*time.Timer{f.connectRetryTimer, f.holdTimer,
@@ -322,7 +325,10 @@ func (f *fsm) connect() fsmState {
 		select {
 		case <-f.closeCh:
 			f.cancelDialFn()
-			<-f.dialResultCh
+			if dr := <-f.dialResultCh; dr != nil && dr.conn != nil {
+				// the dial completed before it could be canceled
+				dr.conn.Close()
+			}
 			f.connectRetryTimer.Stop()
 			return disabledState
 		case dr := <-f.dialResultCh:
